@@ -228,3 +228,10 @@ package promapi
 //@ func Prometheus.Config
 //@ func Prometheus.Flags
 //@ func Prometheus.Metadata
+
+//@ spec func tooExpensive(e error) bool = errorsAs(e, APIError) && errorsAsVal(e, APIError).ErrorType == v1.ErrExec &&
+//@      (hasPrefix(errorsAsVal(e, APIError).Err, "query processing would load too many samples into memory in ") ||
+//@       hasSuffix(errorsAsVal(e, APIError).Err, "expanding series: context deadline exceeded"))
+//@ func IsQueryTooExpensive [C15]
+//@   ensures result == tooExpensive(err)
+//@   safe
